@@ -99,7 +99,14 @@ def r1_single_emission(ctx, rule="C15.R1"):
                 ctx.ok(rule, key, loc, "clone and original do not both reach an emitter")
     ctx.analysed_units(rule, clone_sites=n_clone_sites,
                        statement_holders=sorted(prog.adts[h]["path"].split("::")[-1] for h in holders))
-    # blocks are emitted by value: without a clone a block cannot reach two emitters (ownership)
+    # blocks are emitted by value: without a clone a block cannot reach two emitters (ownership),
+    # so a tree without any clone of a statement block is fine; the scan itself is an obligation and
+    # the type test is exercised on two synthetic types so that it cannot silently stop matching
+    for ty, want in (("std::vec::Vec<rusty_common::Positioned<rusty_parser::Statement>>", True),
+                     ("rusty_parser::ConditionalBlock", True), ("std::string::String", False)):
+        if bool(ty_holds_statements(ty, holder_paths)) != want:
+            raise CheckError("%s: statement-holder type test failed on %s" % (rule, ty))
+    ctx.ok(rule, rule + ":scan", "instruction_generator", "%d clones of statement-bearing values examined" % n_clone_sites)
     ctx.require(rule, 1)
 
 
